@@ -276,4 +276,126 @@ theorem val_runS_stopped (s : GS) (ops : List SOp) (q : Nat) (h : Inv s.tree) (h
         (val_stepS_stopped s op q h hq hs)
     · exact ih _ h hq hs
 
+/-! ## a whole `Group.Shutdown` flags the group and stops / flags each of its direct children -/
+
+theorem sdVisit_marks (t : Tree) (st : List Nat × List Bool) (k g : Nat) (h : g ∈ st.1) : g ∈ (sdVisit t st k).1 := by
+  unfold sdVisit
+  split
+  · exact h
+  · split
+    · exact h
+    · split
+      · split
+        · exact h
+        · split
+          · exact h
+          · exact List.mem_cons_of_mem _ h
+      · exact h
+
+theorem sdVisit_length (t : Tree) (st : List Nat × List Bool) (k : Nat) : (sdVisit t st k).2.length = st.2.length := by
+  unfold sdVisit
+  split
+  · rfl
+  · split
+    · rfl
+    · split
+      · split
+        · simp
+        · split
+          · rfl
+          · simp
+      · rfl
+
+theorem foldl_sdVisit_marks (t : Tree) (is : List Nat) (st : List Nat × List Bool) (g : Nat) (h : g ∈ st.1) :
+    g ∈ (is.foldl (sdVisit t) st).1 := by
+  induction is generalizing st with
+  | nil => exact h
+  | cons i is ih => exact ih _ (sdVisit_marks t st i g h)
+
+theorem foldl_sdVisit_length (t : Tree) (is : List Nat) (st : List Nat × List Bool) :
+    (is.foldl (sdVisit t) st).2.length = st.2.length := by
+  induction is generalizing st with
+  | nil => rfl
+  | cons i is ih => rw [List.foldl_cons, ih, sdVisit_length]
+
+theorem getD_set_self (l : List Bool) (i : Nat) (h : i < l.length) : ((l.set i true)[i]?).getD false = true := by
+  simp [List.getElem?_set, h]
+
+/-- Visiting a child of a group whose `shutdown()` body runs: afterwards its flag is set. -/
+theorem sdVisit_sets (t : Tree) (st : List Nat × List Bool) (i p : Nat) (n : Node) (hi : t[i]? = some n)
+    (hp : n.parent = some p) (hm : p ∈ st.1) (hl : i < st.2.length) : (((sdVisit t st i).2)[i]?).getD false = true := by
+  unfold sdVisit
+  simp only [hi, hp]
+  have hc : st.1.contains p = true := by simpa using hm
+  simp only [hc, if_true]
+  split
+  · exact getD_set_self _ _ hl
+  · split
+    · rename_i h; exact h
+    · exact getD_set_self _ _ hl
+
+theorem foldl_sdVisit_sets (t : Tree) (is : List Nat) (st : List Nat × List Bool) (i p : Nat) (n : Node)
+    (hmem : i ∈ is) (hi : t[i]? = some n) (hp : n.parent = some p) (hm : p ∈ st.1) (hl : i < st.2.length) :
+    (((is.foldl (sdVisit t) st).2)[i]?).getD false = true := by
+  obtain ⟨l1, l2, rfl⟩ := List.append_of_mem hmem
+  rw [List.foldl_append, List.foldl_cons]
+  apply foldl_sdVisit_mono
+  apply sdVisit_sets t _ i p n hi hp
+  · exact foldl_sdVisit_marks t l1 st p hm
+  · rw [foldl_sdVisit_length]; exact hl
+
+theorem shutdownAll_sets (s : GS) (g i : Nat) (n : Node) (hg : isShut s g = false) (hi : s.tree[i]? = some n)
+    (hp : n.parent = some g) (hlen : s.shut.length = s.tree.length) (hgl : g < s.tree.length) :
+    isShut (shutdownAll s g) i = true ∧ isShut (shutdownAll s g) g = true := by
+  have hil := Hive.WP.lt_of_get hi
+  unfold shutdownAll isShut
+  unfold isShut at hg
+  simp only [hg, Bool.false_eq_true, if_false]
+  constructor
+  · exact foldl_sdVisit_sets s.tree _ _ i g n (by simp [hil]) hi hp (by simp) (by simp [hlen, hil])
+  · exact foldl_sdVisit_mono _ _ _ _ (getD_set_self _ _ (by omega))
+
+/-! the flag list is as long as the tree -/
+
+theorem bump_length (fuel : Nat) : ∀ (t : Tree) (i : Nat) (up : Bool), (bump fuel t i up).length = t.length := by
+  induction fuel with
+  | zero => intro t i up; rfl
+  | succ fuel ih =>
+    intro t i up
+    cases hget : t[i]? with
+    | none => simp [bump, hget]
+    | some n =>
+      rcases bump_cases fuel t i up n hget with e | ⟨g, b, _, e⟩
+      · rw [e]; simp
+      · rw [e, ih]; simp
+
+theorem shutdownAll_length (s : GS) (g : Nat) : (shutdownAll s g).shut.length = s.shut.length := by
+  unfold shutdownAll
+  split
+  · rfl
+  · simp only [foldl_sdVisit_length]; simp
+
+theorem len_stepS (s : GS) (op : SOp) (h : s.shut.length = s.tree.length) :
+    (stepS s op).shut.length = (stepS s op).tree.length := by
+  cases op with
+  | base o =>
+    cases o with
+    | inc q => simp only [stepS]; split; exact h; simp only [step]; rw [bump_length]; exact h
+    | dec q => simp only [stepS, step]; rw [bump_length]; exact h
+    | newGroup p => simp [stepS, step, h]
+    | newPool g => simp [stepS, step, h]
+  | flag g => simp [stepS, h]
+  | stop q => simp [stepS, h]
+  | shutdown g => simp only [stepS, shutdownAll_tree, shutdownAll_length]; exact h
+
+theorem len_runS (s : GS) (ops : List SOp) (h : s.shut.length = s.tree.length) :
+    (runS s ops).shut.length = (runS s ops).tree.length := by
+  induction ops generalizing s with
+  | nil => exact h
+  | cons op ops ih =>
+    simp only [runS]
+    split
+    · exact ih _ (len_stepS s op h)
+    · exact ih _ h
+
 end Hive.WPG
